@@ -1260,8 +1260,10 @@ func mergeChunks(chunks []*MessageChunk) ([]byte, error) {
 
 	var b []byte
 	var seqnr uint32
-	for _, c := range chunks {
-		if c.SequenceHeader.SequenceNumber == seqnr {
+	for i, c := range chunks {
+		// the first chunk has no predecessor it could be a duplicate of:
+		// 0 is a valid sequence number after a wrap-around.
+		if i > 0 && c.SequenceHeader.SequenceNumber == seqnr {
 			continue // duplicate chunk
 		}
 		seqnr = c.SequenceHeader.SequenceNumber
